@@ -292,7 +292,7 @@ fn items(ctx: &Ctx) -> Vec<Item> {
     };
     let faults = vec![Answer::FailBefore, Answer::FailAfter];
     let mut v = vec![];
-    for h in [HandlerKind::CondPut, HandlerKind::Rename, HandlerKind::External] {
+    for h in [HandlerKind::CondPut, HandlerKind::Rename, HandlerKind::Lock, HandlerKind::External] {
         let small = h != HandlerKind::External;
         // 2 writers + reader, no faults: all interleavings for the small handlers
         v.push(Item {
